@@ -42,7 +42,7 @@ func convertObjectToASTNode(obj object.Object) ast.Node {
 		t := token.Intern(token.INT, strconv.FormatInt(obj.Value, 10))
 		r := ast.IntegerLiteral{Val: obj.Value}
 		r.Token = t
-		return r
+		return &r // a pointer, like every node the parser builds (the evaluator and Modify switch on pointer types).
 	case object.Boolean:
 		var t *token.Token
 		if obj.Value {
@@ -50,7 +50,7 @@ func convertObjectToASTNode(obj object.Object) ast.Node {
 		} else {
 			t = token.FALSET
 		}
-		return ast.Boolean{Base: ast.Base{Token: t}, Val: obj.Value}
+		return &ast.Boolean{Base: ast.Base{Token: t}, Val: obj.Value}
 	case object.Quote:
 		return obj.Node
 	default:
